@@ -89,6 +89,28 @@ Example stack_example :
   stack (fun rows => rows) [10; 20; 30; 40] [5; 3; 5; 3] = ([[20; 40]; [10; 30]], [2; 2]).
 Proof. vm_compute. reflexivity. Qed.
 
+(* ... with a header dict: entry i of EVERY aggregated header vector is the aggregate over exactly the traces
+   carrying the i-th smallest label — the same label as stacked row i and fold i (pandas groupby sorts). *)
+Theorem C20_stack_header_spec :
+  forall (A B H HB : Type) (agg : list A -> B) (hagg : list H -> HB)
+         (data : list A) (hdrs : list (list H)) (word : list Z) st hs fold,
+  stack_header agg hagg data hdrs word = (st, hs, fold) ->
+  let groups := uniq_sorted word in
+  stack agg data word = (st, fold) /\
+  length hs = length hdrs /\
+  forall (k i : nat) (dh : list H) (dhb : HB), (k < length hdrs)%nat -> (i < length groups)%nat ->
+    length (nth k hs []) = length groups /\
+    nth i (nth k hs []) dhb = hagg (select word (nth k hdrs dh) (nth i groups 0)) /\
+    nth i fold 0 = count_eq (nth i groups 0) word.
+Proof. intros A B H HB. exact (@stack_header_spec A B H HB). Qed.
+Print Assumptions C20_stack_header_spec.
+
+Example stack_header_example :   (* labels first appear in descending order *)
+  stack_header (fun rows : list Z => zsum rows) (fun v : list Z => zsum v)
+               [10; 20; 30; 40] [[1; 2; 3; 4]; [7; 7; 8; 9]] [5; 3; 5; 3]
+  = ([60; 40], [[6; 4]; [16; 15]], [2; 2]).
+Proof. vm_compute. reflexivity. Qed.
+
 (* F-C20-b: the stacked array takes the dtype of the data, so for INTEGER traces and the default
    aggregate (nanmean) the rows are the means truncated towards zero, not the per-label means:
    traces [1] and [2] with one label stack to [1] (and [-3],[-4] to [-3]). *)
